@@ -392,7 +392,48 @@ def F20():
     assert np.shape(inp.info.mask) == tuple(g2.data_shape) and np.array_equal(inp.info.mask, data_mask), (inp.info.mask, data_mask)
 
 
-ALL = ["F1", "F2", "F3", "F3b", "F4", "F5", "F6", "F7", "F8", "F9", "F10", "F11", "F13", "F14", "F15", "F16", "F17", "F18", "F20"]
+def F21():
+    """two static outputs of one component, the first read by a timed input, the second by a static input: connect fails (C03/C06)"""
+    import logging
+    from datetime import timedelta
+
+    class Cons(fm.TimeComponent):
+        def __init__(self):
+            super().__init__()
+            self._time = S
+
+        def _next_time(self):
+            return self.time + timedelta(days=1)
+
+        def _initialize(self):
+            self.inputs.add(name="a", time=self.time, grid=fm.NoGrid(), units="m")
+            self.inputs.add(name="b", static=True, time=None, grid=fm.NoGrid(), units="m")
+            self.create_connector(pull_data=["a", "b"])
+
+        def _connect(self, st):
+            self.try_connect(st)
+
+        def _validate(self):
+            pass
+
+        def _update(self):
+            self._time = self._next_time()
+
+        def _finalize(self):
+            pass
+
+    gen = fm.components.StaticCallbackGenerator({
+        "Out1": (lambda: 1.0, fm.Info(time=None, grid=fm.NoGrid(), units="m")),
+        "Out2": (lambda: 2.0, fm.Info(time=None, grid=fm.NoGrid(), units="m")),
+    })
+    c = Cons()
+    comp = fm.Composition([gen, c], print_log=False, log_level=logging.CRITICAL)
+    gen.outputs["Out1"] >> c.inputs["a"]
+    gen.outputs["Out2"] >> c.inputs["b"]
+    comp.run(start_time=S, end_time=S + timedelta(days=3))
+
+
+ALL = ["F1", "F2", "F3", "F3b", "F4", "F5", "F6", "F7", "F8", "F9", "F10", "F11", "F13", "F14", "F15", "F16", "F17", "F18", "F20", "F21"]
 
 if __name__ == "__main__":
     names = sys.argv[1:] or ALL
